@@ -107,6 +107,35 @@ class CkInterp(Interp):
             self.shared['draws'].append(('range', v, st, en))
             self.cur_pc = z3.simplify(z3.And(self.cur_pc, z3.UGE(v, st), z3.ULT(v, en)))
             return v
+        m = re.match(r'^(?:std::collections::)?(Vec|VecDeque)::<[^>]*(?:<[^>]*>)?[^>]*>::(new|push|push_back|push_front|pop|pop_back|pop_front|len|is_empty|clear)$', fname)
+        if m and fname not in ('Vec::<(usize, u64)>::push', 'Vec::<(usize, u64)>::new'):
+            op = m.group(2)
+            if op == 'new':
+                return VecObj([])
+            v = self.read_ref(a[0])
+            if op in ('push', 'push_back'):
+                self.write_ref(a[0], VecObj(v.items + [a[1]]))
+                return Opaque('unit')
+            if op == 'push_front':
+                self.write_ref(a[0], VecObj([a[1]] + v.items))
+                return Opaque('unit')
+            if op in ('pop', 'pop_back'):
+                if v.items:
+                    self.write_ref(a[0], VecObj(v.items[:-1]))
+                    return OptionVal(z3.BoolVal(True), v.items[-1])
+                return OptionVal(z3.BoolVal(False), bv(0))
+            if op == 'pop_front':
+                if v.items:
+                    self.write_ref(a[0], VecObj(v.items[1:]))
+                    return OptionVal(z3.BoolVal(True), v.items[0])
+                return OptionVal(z3.BoolVal(False), bv(0))
+            if op == 'len':
+                return bv(len(v.items))
+            if op == 'is_empty':
+                return z3.BoolVal(len(v.items) == 0)
+            if op == 'clear':
+                self.write_ref(a[0], VecObj([]))
+                return Opaque('unit')
         if fname == 'Vec::<(usize, u64)>::push':
             v = self.read_ref(a[0])
             self.write_ref(a[0], VecObj(v.items + [a[1]]))
